@@ -201,8 +201,6 @@ pub uninterp spec fn upper_hex_long(v: u32) -> Seq<char>;    // 5..8 digits, v >
 pub open spec fn upper_hex_min4(v: u32) -> Seq<char> {
     if v < 0x10000 { seq![hexd(v as int / 4096), hexd(v as int / 256 % 16), hexd(v as int / 16 % 16), hexd(v as int % 16)] } else { upper_hex_long(v) }
 }
-#[verifier::external_body]
-pub proof fn axiom_upper_hex_long_len(v: u32) ensures v >= 0x10000 ==> upper_hex_long(v).len() >= 5 {}
 pub open spec fn hex_units(u: Seq<u16>) -> Seq<char> decreases u.len() {
     if u.len() == 0 { Seq::empty() } else { hex_units(u.drop_last()) + upper_hex_min4(u.last() as u32) }
 }
